@@ -532,7 +532,9 @@ func throughTicket(c *engine.Ctx, ms []rpac.ValidationInfo, evals *int64) {
 		p, _ := rcrypto.Get(et)
 		svcKey, _ := w.Lookup([]string{"HTTP", apworld.SvcHost}, apworld.Realm, 2, et)
 		for mi, v := range []rpac.ValidationInfo{ms[9], ms[len(ms)-1]} {
-			for _, variant := range []string{"valid", "bad-signature", "signed-with-other-key", "missing-client-info", "pac-decoding-off"} {
+			for _, variant := range []string{"valid", "bad-signature", "signed-with-other-key", "missing-client-info", "pac-decoding-off",
+				// damage that makes the PAC fail while its header / buffer table is read (before any signature is looked at)
+				"buffer-count-exceeds-data", "cut-inside-header", "cut-inside-buffer-table", "buffer-offset-beyond-data", "empty-pac"} {
 				key := svcKey
 				if variant == "signed-with-other-key" {
 					key = keyOf(et, c.Seed+5)
@@ -544,6 +546,18 @@ func throughTicket(c *engine.Ctx, ms []rpac.ValidationInfo, evals *int64) {
 				b := build(v, p.CksumType, key, nil, order, c.Seed)
 				if variant == "bad-signature" {
 					b.pac[b.srvSigOff] ^= 1
+				}
+				switch variant {
+				case "buffer-count-exceeds-data":
+					b.pac[2] = 0x40 // cBuffers += 0x400000
+				case "cut-inside-header":
+					b.pac = b.pac[:5]
+				case "cut-inside-buffer-table":
+					b.pac = b.pac[:8+16+7]
+				case "buffer-offset-beyond-data":
+					b.pac[8+8+2] = 0x7f // offset of the first buffer += 0x7f0000
+				case "empty-pac":
+					b.pac = []byte{}
 				}
 				inner := krbmsg.EncodeAuthData([]krbmsg.AuthDataEntry{{Type: 128, Data: b.pac}})
 				cs := apworld.Base(et)
